@@ -134,4 +134,17 @@ func brokerGoroutines() string {
 	return s
 }
 
+// malformedFromBroker reports a violation when the client's reader stopped because the broker sent bytes that
+// the independent codec rejects (e.g. a QoS>0 PUBLISH with packet identifier 0), as opposed to a plain close.
+func malformedFromBroker(pfx string, cl *fixture.Client) *ev.Violation {
+	closed, err := cl.Closed()
+	if !closed || err == nil || fixture.IsEOF(err) {
+		return nil
+	}
+	if mw.IsMalformed(err) {
+		return ev.Violf(pfx+".malformed-from-broker", "the broker sent client %q a packet the independent codec rejects: %v", cl.ID, err)
+	}
+	return nil
+}
+
 func sleepMs(n int) { time.Sleep(time.Duration(n) * time.Millisecond) }
